@@ -34,8 +34,8 @@ def classes():
             return self._matrix
 
     class FitStub(aa.FitImaging):
-        def __init__(self, dataset, model_data=None, inversion=None, use_mask_in_fit=False, run_time_dict=None):
-            super().__init__(dataset=dataset, use_mask_in_fit=use_mask_in_fit, run_time_dict=run_time_dict)
+        def __init__(self, dataset, model_data=None, inversion=None, use_mask_in_fit=False, run_time_dict=None, dataset_model=None):
+            super().__init__(dataset=dataset, use_mask_in_fit=use_mask_in_fit, dataset_model=dataset_model, run_time_dict=run_time_dict)
             self._model_data = model_data
             self._inversion = inversion
 
